@@ -1,3 +1,5 @@
 SPECIFICATION Spec
+CONSTANTS GEN = FALSE
 INVARIANT OutcomeOK
+INVARIANT Emit
 CHECK_DEADLOCK FALSE
